@@ -29,6 +29,9 @@ type Slicer struct {
 	// LiftParams: when a Parameter of a repo function is reached with no
 	// calling context, continue at every call site's argument (bounded).
 	LiftParams  int
+	// OpaqueInvokes: do not continue through receiver/arguments of interface
+	// method calls (default: continue, dependence over-approximation).
+	OpaqueInvokes bool
 	fieldStores map[FieldKey][]ssa.Value
 	globalStore map[*ssa.Global][]ssa.Value
 }
@@ -376,10 +379,16 @@ func (s *Slicer) walkLoad(addr ssa.Value, fr *frame, depth, lift int, seen map[s
 
 func (s *Slicer) walkCall(call *ssa.Call, resIdx int, fr *frame, depth, lift int, seen map[ssa.Value]int, visit func(ssa.Value) bool, term func(ssa.Value)) {
 	if call.Call.IsInvoke() {
-		// method on interface: opaque; proto-style getters on messages are
-		// concrete, handled below.
+		// method on interface: the call is a terminal origin; for dependence
+		// queries the result also depends on receiver and arguments.
 		if term != nil {
 			term(call)
+		}
+		if !s.OpaqueInvokes {
+			s.walk(call.Call.Value, fr, depth, lift, seen, visit, term)
+			for _, a := range call.Call.Args {
+				s.walk(a, fr, depth, lift, seen, visit, term)
+			}
 		}
 		return
 	}
